@@ -695,6 +695,10 @@ def c03_oracle(t, steps):
             for l in ls:
                 if l.startswith(":" + srv + " 001 "):
                     registered.add(int(c))
+                # "a wrong or missing password closes the connection": whoever is told 464 at the end of a registration attempt
+                # is closed in that very step (seeded C03-g: the missing-password case answered 464 and stayed open)
+                if l.startswith(":" + srv + " 464 ") and int(c) not in registered and int(c) not in (s.get("eof") or []):
+                    fails.append(("connection %s was refused with 464 (password) during registration and is still open" % c, {"step": s["k"]}))
         closed.update(s.get("eof") or [])
         prev_dump = dump
     # password / mask requirement: the probing connection (1) registers as zed only with the right credentials
@@ -988,6 +992,11 @@ def msg_sweep(res):
                 t.line(4, l)
                 t.line(7, l)
             t.line(6, "MODE #r -b x!*@*")
+            if "m" in fl:
+                # a member listed for voice AND a higher rank keeps its voice when the higher rank is taken away
+                t.line(0, "MODE #r -h dave")
+                t.line(3, "PRIVMSG #r :dave, voiced by configuration, after -h")
+                t.line(0, "MODE #r +h dave")
             for sender in (0, 3, 4, 5, 6, 7):
                 for pf in prefixes:
                     t.line(sender, "PRIVMSG %s#r :to %s" % (pf, pf or "all"))
@@ -1017,10 +1026,45 @@ def msg_sweep(res):
     return traces
 
 
+def msg_leave_traces():
+    """members holding several ranks leave (PART, KICK, QUIT, close) a channel that survives, and come back as plain members;
+    then every status-prefixed target is used (seeded C01-g: the leaver stays in the lists of its lower ranks)"""
+    out = []
+    for k, how in enumerate(["PART", "KICK", "QUIT", "CLOSE"]):
+        t = Trace("msg-leave-%s" % how, Config())
+        for c, n in enumerate(["alice", "bob", "carol", "dave"]):
+            t.register(c, n)
+        for c in range(4):
+            t.line(c, "JOIN #r")
+        t.line(0, "MODE #r +ov bob bob")
+        t.line(0, "MODE #r +hv carol carol")
+        t.line(0, "MODE #r +av alice alice")
+        if how == "PART":
+            t.line(1, "PART #r")
+            t.line(0, "PART #r")
+        elif how == "KICK":
+            t.line(0, "KICK #r bob")
+            t.line(2, "KICK #r carol")
+        elif how == "QUIT":
+            t.line(1, "QUIT")
+        else:
+            t.close(1)
+        for pf in ["+", "%", "@", "&", "~", "@+", "~&@%+", ""]:
+            t.line(3, "PRIVMSG %s#r :to %s after the departure" % (pf, pf))
+        if how in ("PART", "KICK"):
+            t.line(1, "JOIN #r")
+            for pf in ["+", "@", "~&@%+"]:
+                t.line(3, "NOTICE %s#r :to %s after the return" % (pf, pf))
+        t.meta = {"leave": how}
+        out.append(t)
+    return out
+
+
 def check_C01(res):
     sweep = msg_sweep(res)
     n = 150 if res.tier == "quick" else 2500
-    r = l2_campaign(res, "C01", n, 45, msg_profile(), traces=sweep, oracle=msg_oracle)
+    # the audience of a status-prefixed target is read from the channel's rank lists: they must mirror the members' flags after every step
+    r = l2_campaign(res, "C01", n, 45, msg_profile(), traces=sweep + msg_leave_traces(), oracle=lambda t, st: msg_oracle(t, st) + inv_oracle(t, st))
     res.coverage.update({
         "evaluations": r["steps"], "distinct_nontrivial": msg_distinct(r),
         "rule": "sweep: all 32 status-prefix subsets x 4 senders (founder+voice, half-op+voice, plain member, outsider with ban exception) on a preconfigured channel whose "
@@ -1053,7 +1097,8 @@ def check_C10(res):
     n = 120 if res.tier == "quick" else 2000
     prof = msg_profile()
     prof["weights"].update(MODE=16, AWAY=6)
-    r = l2_campaign(res, "C10", n, 45, prof, traces=sweep, oracle=msg_oracle)
+    # the rank that lets a member speak on +m is the one the channel's configuration gives it at JOIN (all listed ranks)
+    r = l2_campaign(res, "C10", n, 45, prof, traces=sweep, oracle=lambda t, st: msg_oracle(t, st) + cfg_rank_oracle(t, st))
     res.coverage.update({
         "evaluations": r["steps"], "distinct_nontrivial": msg_distinct(r),
         "rule": "same sweep as C01 (flags {none,n,s,m,nm,ns} x banned/excepted x every rank combination x PRIVMSG and NOTICE) plus %d seeded random histories weighted to MODE "
@@ -1363,6 +1408,32 @@ def c16_traces(res):
         t.meta = {"pre": True, "ranks": sub}
         traces.append(t)
     return traces
+
+
+def cfg_rank_oracle(t, steps):
+    """a nick that has just become a member of a configured channel holds exactly the ranks the configuration lists for it -
+    all of them when it is named in several lists (seeded C16-c, C10-g)"""
+    fails = []
+    prev = None
+    for s in sorted(steps, key=lambda s: s["k"]):
+        d = s.get("dump")
+        if d is None or s.get("panics"):
+            prev = d
+            continue
+        if prev is not None:
+            for c in t.cfg.channels:
+                chp, cha = prev["channels"].get(c["name"]), d["channels"].get(c["name"])
+                if chp is None or cha is None:
+                    continue
+                for n in set(cha["users"]) - set(chp["users"]):
+                    if n in prev["users"]:          # a join, not a rename of a member
+                        want = "".join(l for l in "qaohv" if n in (c.get(RANKLIST[l]) or []))
+                        got = "".join(l for l in "qaohv" if l in cha["users"][n])
+                        if got != want:
+                            fails.append(("%s joined the configured channel %s and holds ranks %r, the configuration lists it for %r" % (n, c["name"], got, want), {"step": s["k"]}))
+                            return fails
+        prev = d
+    return fails
 
 
 def c16_oracle(t, steps):
@@ -2247,6 +2318,72 @@ def c02_hung_victim():
     return probs, stats
 
 
+def c02_nick_race(rounds=5):
+    """schedule part of C02 on the real server: two REGISTERED connections ask for the same free nickname at the same moment, while a
+    third keeps the state lock busy with an OPER password check (so both requests are released together); the nickname belongs to
+    exactly one of them - exactly one rename is announced, the other is told 433 -, and when the winner's connection later ends the
+    loser's own user is untouched (seeded C02-g: the in-use test and the rename under different lock acquisitions).
+    Returns (problems, stats)."""
+    probs, stats = [], collections.Counter()
+    okb, outb = build_server_binary()
+    if not okb:
+        return ["the server binary does not build"], stats
+    sv = Server(dict(name="irc.irc", admin_info="A", info="I", motd="M", network="N",
+                     operators=[dict(name="admin", password=irc.pw_hash("operpass"))]), tag="c02r")
+    if not sv.listening:
+        sv.stop()
+        return ["the server does not start"], stats
+    try:
+        h = BConn(sv.port)
+        h.send("NICK holder\r\nUSER h 8 * :h\r\n")
+        w = BConn(sv.port)
+        w.send("NICK watch\r\nUSER w 8 * :w\r\n")
+        for c in (h, w):
+            c.wait_for(lambda l: " 221 " in l, tmo=8)
+        for rd in range(rounds):
+            a, b = BConn(sv.port), BConn(sv.port)
+            a.send("NICK ra%d\r\nUSER alice 8 * :a\r\n" % rd)
+            b.send("NICK rb%d\r\nUSER bob 8 * :b\r\n" % rd)
+            for c in (a, b):
+                c.wait_for(lambda l: " 221 " in l, tmo=8)
+            ma, mb = len(a.lines), len(b.lines)
+            h.send("OPER admin wrongpw%d\r\n" % rd)      # holds the write lock for the duration of the password check
+            _time.sleep(0.02)
+            a.send("NICK zed%d\r\n" % rd)
+            b.send("NICK zed%d\r\n" % rd)
+            pat = re.compile(r"^:(ra|rb)%d!\S+ NICK :?zed%d$" % (rd, rd))
+            for c, mk in ((a, ma), (b, mb)):
+                c.wait_for(lambda l: " 433 " in l or pat.match(l), tmo=8, start=mk)
+            pump_all([a, b, w], quiet=0.25, tmo=3.0)
+            won = [c for c, mk, own in ((a, ma, "ra"), (b, mb, "rb")) if any(re.match(r"^:%s%d!\S+ NICK :?zed%d$" % (own, rd, rd), l) for l in c.lines[mk:])]
+            refused = [c for c, mk in ((a, ma), (b, mb)) if any(" 433 " in l for l in c.lines[mk:])]
+            stats["rounds"] += 1
+            stats["both_granted"] += int(len(won) == 2)
+            if len(won) != 1 or len(refused) != 1:
+                probs.append("two registered connections asked for the free nickname zed%d at the same moment: %d were granted it and %d were told 433 (exactly one of each expected)" % (rd, len(won), len(refused)))
+                break
+            # the winner leaves; the loser still owns its own nick and is served
+            winner, loser = won[0], (b if won[0] is a else a)
+            lnick = ("rb%d" if loser is b else "ra%d") % rd
+            winner.send("QUIT\r\n")
+            winner.close()
+            _time.sleep(0.2)
+            mk = len(w.lines)
+            w.send("ISON %s zed%d\r\n" % (lnick, rd))
+            l = w.wait_for(lambda x: " 303 " in x, tmo=5, start=mk)
+            listed = (l or "").split(":", 2)[-1].split()
+            if listed != [lnick]:
+                probs.append("after the connection that won zed%d quit, ISON lists %r (only the other connection's own nick %r is registered)" % (rd, listed, lnick))
+                break
+            loser.send("QUIT\r\n")
+            loser.close()
+        for c in (h, w):
+            c.close()
+    finally:
+        sv.stop()
+    return probs, dict(stats)
+
+
 def check_C02(res):
     sweep = c02_sweep(res)
     n = 100 if res.tier == "quick" else 2000
@@ -2274,8 +2411,15 @@ def check_C02(res):
     for p_ in probs[:2]:
         res.violation(p_, {"kind": "binary", "scenario": "operator KILLs a connection that does not read its socket; a newcomer claims the nick; the dead connection closes", "stats": stats}, found=True)
     res.coverage["hung_victim_scenario"] = stats
+    probs, stats = c02_nick_race(5 if res.tier == "quick" else 30)
+    if probs:
+        probs2, stats2 = c02_nick_race(5 if res.tier == "quick" else 30)
+        probs = [p_ for p_ in probs if any(re.sub(r"\d+", "#", p_)[:60] == re.sub(r"\d+", "#", q_)[:60] for q_ in probs2)]
+    for p_ in probs[:2]:
+        res.violation(p_, {"kind": "binary", "scenario": "two registered connections send NICK for one free nickname while a third connection's OPER password check holds the state lock", "stats": stats}, found=True)
+    res.coverage["nick_race_scenario"] = stats
     res.coverage["rule"] += ("; plus, on the real binary, the fault schedule 'KILL of a connection stuck writing to a client that does not read, newcomer claims the nick, dead connection "
-                             "closes': a connection welcomed under a nick and never told ERROR still owns it afterwards")
+                             "closes': a connection welcomed under a nick and never told ERROR still owns it afterwards; and the schedule 'two registered connections ask for one free nickname at the same moment behind a busy state lock': exactly one is granted it, the other told 433, and the winner's later QUIT leaves the other's user alone")
 
 
 # ====================================================================== C04
@@ -2958,7 +3102,9 @@ def c06_sweep(res):
             elif way == "CLOSE":
                 t.close(0)
             elif way == "MIDLINE":
-                t.raw(0, b"PRIVMSG #shared :unfinished")
+                # the unterminated bytes are a command that would change OTHERS if it were executed at the close (seeded C06-g)
+                t.raw(0, [b"PRIVMSG #shared :unfinished", b"KICK #shared friend :bye", b"MODE #shared -o friend", b"TOPIC #shared :half a topic",
+                          b"INVITE friend #pre", b"MODE #shared +b friend!*@*"][variant])
                 t.close(0)
             elif way == "KILL":
                 t.line(2, "KILL victim :out")
@@ -3071,6 +3217,13 @@ def oper_oracle(t, steps):
                         exp = []
                     if got != exp:
                         fails.append(("WALLOPS by %s (%s) reached connections %r, expected %r" % (actor, am, got, exp), {"step": s["k"]}))
+                # STATS only for (local) operators: whatever letter is asked for, everyone else gets the privilege error and nothing else
+                m = re.match(r"^STATS ([a-zA-Z])$", line)
+                if m and "o" not in am and "O" not in am:
+                    mine = (s.get("out") or {}).get(str(cid), [])
+                    nums = [numeric_of(l) for l in mine]
+                    if nums != ["481"] and not any(x == "ERROR" for x in nums):
+                        fails.append(("%r by %s, who is no operator (modes %r), is answered %r instead of the privilege error 481" % (line, actor, am, nums), {"step": s["k"]}))
                 m = re.match(r"^MODE (\S+) ([-+][-+iwoOr]*)$", line)
                 if m and m.group(1) == actor and actor in d["users"]:
                     sign = None
@@ -3110,9 +3263,9 @@ def c11_sweep(res):
                 t.register(2, "carol")
                 t.line(2, "MODE carol +w")
                 for l in ["MODE %s +o" % nickcase, "MODE %s +O" % nickcase, "MODE %s +oO-i+w" % nickcase, "KILL bob :no", "DIE", "WALLOPS :hi",
-                          "STATS u", "OPER admin wrongpw", "OPER nobody operpass", "OPER admin operpass", "OPER admin operpass", "MODE %s" % nickcase,
+                          "STATS u", "STATS m", "STATS c", "STATS o", "STATS l", "STATS y", "OPER admin wrongpw", "OPER nobody operpass", "OPER admin operpass", "OPER admin operpass", "MODE %s" % nickcase,
                           "LUSERS", "WALLOPS :ops only", "STATS u", "MODE bob +i", "MODE %s -o" % nickcase, "KILL bob :after -o", "MODE %s -O" % nickcase,
-                          "KILL bob :after -O", "OPER admin operpass", "NICK admin2", "MODE admin2 -o+o", "OPER alice topsecret", "KILL bob :now", "SQUIT other.irc :x",
+                          "KILL bob :after -O", "STATS c", "STATS k", "STATS u", "OPER admin operpass", "STATS h", "STATS i", "NICK admin2", "MODE admin2 -o+o", "OPER alice topsecret", "KILL bob :now", "SQUIT other.irc :x",
                           "NICK alice", "MODE alice +o"]:
                     t.line(0, l)
                 t.line(1, "PING x")
@@ -3361,6 +3514,13 @@ def stats_oracle(t, steps):
                             got += [x for x in mm.group(1).split(" ") if x]
                     if got != exp:
                         fails.append(("ISON %r answered %r, registered among them are %r" % (q, got, exp), {"step": s["k"]}))
+                # presence: what AWAY acknowledges (306 away / 305 back) is what USERHOST and the 301 replies will say afterwards
+                if re.match(r"^AWAY\b", ev[2]) and actor in d["users"]:
+                    nums = [numeric_of(l) for l in mine]
+                    st = d["users"][actor]["away"]
+                    if ("306" in nums and st is None) or ("305" in nums and st is not None):
+                        fails.append(("%r by %s is acknowledged with %r but the server now holds the user as %s - USERHOST will flag it %s" % (
+                            ev[2], actor, nums, "away" if st is not None else "not away", "-" if st is not None else "+"), {"step": s["k"]}))
                 m = re.match(r"^USERHOST (.+)$", ev[2])
                 if m and ":" not in ev[2] and not (mine and numeric_of(mine[0]) == "ERROR"):
                     q = m.group(1).split()
@@ -5217,6 +5377,14 @@ def check_C18(res):
                         {"round": rd, "names": members})
                 # C. a +l limit is never exceeded
                 lim = "#lim%d" % rd
+                if rd % 2 == 1:
+                    # every joiner holds a pending invitation from the first member: an invitation admits past +i, never past +l
+                    # (seeded C18-g)
+                    cs[0].send("JOIN %s\r\n" % lim)
+                    cs[0].wait_for(lambda l: " 366 " in l and lim in l, tmo=6)
+                    cs[0].send("".join("INVITE %s %s\r\n" % (names[c], lim) for c in cs[1:]))
+                    pump_all(cs, quiet=0.3, tmo=6.0)
+                    stats["limit_joins_invited"] += N - 1
                 for c in cs:
                     c.send("JOIN %s\r\n" % lim)
                 pump_all(cs, quiet=0.3, tmo=6.0)
@@ -5526,7 +5694,7 @@ def check_C18(res):
     res.coverage.update({
         "evaluations": sum(stats.values()) + r["steps"], "distinct_nontrivial": rounds * 5 + r["traces"],
         "rule": "burst scenarios against the real multi-threaded binary, with 4 bystanders keeping the state lock contended: per round %d connections claim one nickname at the same moment (exactly one 001, "
-                "the rest 433), all JOIN one new channel at once (all members, exactly one founder), all JOIN a +l 3 channel at once (3 admitted, the rest 471), 8 of them pipeline 12 numbered PRIVMSG/PING pairs "
+                "the rest 433), all JOIN one new channel at once (all members, exactly one founder), all JOIN a +l 3 channel at once - in every second round each holding a pending invitation from the first member - (3 admitted, the rest 471), 8 of them pipeline 12 numbered PRIVMSG/PING pairs "
                 "(PONG tokens in order on each socket; per sender->receiver pair the sequence 0..11 in order), every connection answers PING afterwards, NAMES and WHO agree, (second round) 6 numbered channel messages sent while four connections keep OPER (password check under the write lock) busy and a member quits - each remaining member gets each exactly once; (fifth round) three idle senders message a user while four connections keep OPER password checks under the write lock busy - each message is delivered and WHOIS shows the sender's idle time reset; (fourth round) three connections ask WHO * listing eight invisible users while eight others switch AWAY on and off - every query and every change answered; and (first round) a client that pipelines 12000 LIST/NAMES/WHO queries over 80 channels without ever reading its socket must not keep others from being answered or registering; %d rounds; plus the scan of "
                 "lock acquisitions per handler against inventory/lock_shape.json; plus %d sequential histories against the model" % (N, rounds, r["traces"]),
         "traces_validated_against_impl": r["traces"], "burst": dict(stats), "lock_shape_functions": len(shape), "lock_shape_diff": sdiff, "burst_objections_rerun": burst_rerun,
